@@ -288,6 +288,7 @@ static double mabs(M const& m) { return std::max({std::fabs(m.a), std::fabs(m.b)
 static bool mnear(M const& x, M const& y, double tol) {
     return std::fabs(x.a - y.a) <= tol && std::fabs(x.b - y.b) <= tol && std::fabs(x.c - y.c) <= tol && std::fabs(x.d - y.d) <= tol && std::fabs(x.e - y.e) <= tol && std::fabs(x.f - y.f) <= tol;
 }
+template <class T> static std::string mstrT(gil::matrix3x2<T> const& m) { return vh::cat("[", (double)m.a, " ", (double)m.b, " ", (double)m.c, " ", (double)m.d, " ", (double)m.e, " ", (double)m.f, "]"); }
 static std::string mstr(M const& m) { return vh::cat("[", m.a, " ", m.b, " ", m.c, " ", m.d, " ", m.e, " ", m.f, "]"); }
 static M rnd_matrix(vh::rng& r, int kind) {
     switch (kind) {
@@ -362,6 +363,137 @@ static void algebra_cases() {
     }
 }
 
+// ---- every public way to build / compose a matrix3x2 against a long double 3x3 model -------------------
+// Row-vector convention: [x y 1] * [[a b 0],[c d 0],[e f 1]].  The model multiplies full 3x3 matrices.
+struct M3 {
+    ld m[3][3];
+    static M3 identity() { M3 r; for (int i = 0; i < 3; ++i) for (int j = 0; j < 3; ++j) r.m[i][j] = i == j; return r; }
+    static M3 make(ld a, ld b, ld c, ld d, ld e, ld f) { M3 r = identity(); r.m[0][0] = a; r.m[0][1] = b; r.m[1][0] = c; r.m[1][1] = d; r.m[2][0] = e; r.m[2][1] = f; return r; }
+    template <class T> static M3 of(gil::matrix3x2<T> const& g) { return make(g.a, g.b, g.c, g.d, g.e, g.f); }
+    M3 operator*(M3 const& o) const { M3 r; for (int i = 0; i < 3; ++i) for (int j = 0; j < 3; ++j) { ld s = 0; for (int k = 0; k < 3; ++k) s += m[i][k] * o.m[k][j]; r.m[i][j] = s; } return r; }
+    ld mag() const { ld v = 0; for (int i = 0; i < 3; ++i) for (int j = 0; j < 2; ++j) v = std::max(v, std::fabs(m[i][j])); return v; }
+    void apply(ld x, ld y, ld& ox, ld& oy) const { ox = x * m[0][0] + y * m[1][0] + m[2][0]; oy = x * m[0][1] + y * m[1][1] + m[2][1]; }
+    // inverse by cofactors of the full 3x3
+    bool inverse(M3& out) const {
+        ld det = m[0][0] * (m[1][1] * m[2][2] - m[1][2] * m[2][1]) - m[0][1] * (m[1][0] * m[2][2] - m[1][2] * m[2][0]) + m[0][2] * (m[1][0] * m[2][1] - m[1][1] * m[2][0]);
+        if (det == 0) return false;
+        for (int i = 0; i < 3; ++i) for (int j = 0; j < 3; ++j) {
+            int r0 = (j + 1) % 3, r1 = (j + 2) % 3, c0 = (i + 1) % 3, c1 = (i + 2) % 3;
+            out.m[i][j] = (m[r0][c0] * m[r1][c1] - m[r0][c1] * m[r1][c0]) / det;
+        }
+        return true;
+    }
+};
+template <class T> static bool near_model(gil::matrix3x2<T> const& g, M3 const& e, double tol, std::string* why) {
+    const ld got[6] = {g.a, g.b, g.c, g.d, g.e, g.f}, exp[6] = {e.m[0][0], e.m[0][1], e.m[1][0], e.m[1][1], e.m[2][0], e.m[2][1]};
+    static const char* nm = "abcdef";
+    for (int i = 0; i < 6; ++i) if (!(std::fabs((double)(got[i] - exp[i])) <= tol)) { if (why) *why = vh::cat("member ", nm[i], " = ", (double)got[i], ", model ", (double)exp[i]); return false; }
+    return true;
+}
+template <class T> struct TN;
+template <> struct TN<double> { static const char* name() { return "double"; } };
+template <> struct TN<float> { static const char* name() { return "float"; } };
+
+template <class T> static gil::matrix3x2<T> rnd_matrix_t(vh::rng& r) {
+    typedef gil::matrix3x2<T> MT;
+    switch (r.range(0, 4)) {
+    case 0: return MT((T)(r.range(-16, 16) / 4.0), (T)(r.range(-16, 16) / 4.0), (T)(r.range(-16, 16) / 4.0), (T)(r.range(-16, 16) / 4.0), (T)(r.range(-40, 40) / 4.0), (T)(r.range(-40, 40) / 4.0));
+    case 1: return MT::get_rotate((T)(r.unit() * 12.6 - 6.3));
+    case 2: return MT::get_scale((T)(0.1 + 4 * r.unit()), (T)(0.1 + 4 * r.unit()));
+    case 3: return MT::get_translate((T)(20 * r.unit() - 10), (T)(20 * r.unit() - 10));
+    default: return MT((T)(8 * r.unit() - 4), (T)(8 * r.unit() - 4), (T)(8 * r.unit() - 4), (T)(8 * r.unit() - 4), (T)(20 * r.unit() - 10), (T)(20 * r.unit() - 10));
+    }
+}
+
+template <class T> static void algebra_model_cases() {
+    typedef gil::matrix3x2<T> MT;
+    const std::string tn = TN<T>::name();
+    const double eps = (double)std::numeric_limits<T>::epsilon();
+    const int batches = vh::thorough() ? 50 : 10;
+    for (int b = 0; b < batches; ++b) {
+        if (!vh::begin_case("matrix3x2-model." + tn, vh::cat("batch=", b))) continue;
+        vh::rng r = vh::case_rng();
+        for (int i = 0; i < 1000; ++i) {
+            const MT A = rnd_matrix_t<T>(r), B = rnd_matrix_t<T>(r), C = rnd_matrix_t<T>(r);
+            const M3 a = M3::of(A), bm = M3::of(B), c = M3::of(C);
+            const double sc = (double)((1 + a.mag()) * (1 + bm.mag()) * (1 + c.mag()));
+            const double tol = 64 * eps * sc;
+            std::string why;
+            auto ctx = [&] { return vh::cat("A=", mstrT(A), " B=", mstrT(B), " C=", mstrT(C)); };
+#define MCHK(KEY, G, E, TOL) do { if (!near_model((G), (E), (TOL), &why)) V(std::string("matrix-model.") + KEY + "." + tn, [&] { return vh::cat(KEY, ": ", why, "; ", ctx()); }); } while (0)
+            // construction: default, 6 values, copy, assignment, self-assignment
+            { MT d; MCHK("default-ctor", d, M3::identity(), 0.0); }
+            { T v[6]; for (T& x : v) x = (T)(r.range(-64, 64) / 8.0); MT m(v[0], v[1], v[2], v[3], v[4], v[5]); MCHK("value-ctor", m, M3::make(v[0], v[1], v[2], v[3], v[4], v[5]), 0.0); }
+            { MT cp(A); MCHK("copy-ctor", cp, a, 0.0); MT as; as = B; MCHK("assign", as, bm, 0.0); MT& ref = (as = as); MCHK("self-assign", as, bm, 0.0); if (&ref != &as) V("matrix-model.assign-returns-self." + tn, ctx); }
+            // binary product and compound product, chains, aliasing, return value, argument untouched
+            MCHK("product", A * B, a * bm, tol);
+            { MT x = A; MT& ref = (x *= B); MCHK("compound", x, a * bm, tol); if (&ref != &x) V("matrix-model.compound-returns-self." + tn, ctx); }
+            { MT x = A, y = B; x *= y; MCHK("compound-rhs-untouched", y, bm, 0.0); }
+            { MT x = A; x *= B; x *= C; MCHK("compound-chain", x, (a * bm) * c, tol); MCHK("compound-chain-vs-binary", x, M3::of((A * B) * C), 8 * eps * sc); }
+            { MT x = A; (x *= B) *= C; MCHK("compound-chain-ref", x, (a * bm) * c, tol); }
+            { MT x = A; x *= x; MCHK("compound-alias", x, a * a, tol); }
+            { MT x = A; x *= MT(); MCHK("compound-identity-right", x, a, 4 * eps * sc); MT y; y *= A; MCHK("compound-identity-left", y, a, 4 * eps * sc); }
+            MCHK("product-assoc-left", (A * B) * C, (a * bm) * c, tol);
+            MCHK("product-assoc-right", A * (B * C), a * (bm * c), tol);
+            // generators, all overloads
+            {
+                T tx = (T)(20 * r.unit() - 10), ty = (T)(20 * r.unit() - 10), sx = (T)(0.1 + 4 * r.unit()), sy = (T)(0.1 + 4 * r.unit()), th = (T)(12.6 * r.unit() - 6.3);
+                MCHK("translate-xy", MT::get_translate(tx, ty), M3::make(1, 0, 0, 1, tx, ty), 0.0);
+                MCHK("translate-point", MT::get_translate(gil::point<T>(tx, ty)), M3::make(1, 0, 0, 1, tx, ty), 0.0);
+                MCHK("scale-xy", MT::get_scale(sx, sy), M3::make(sx, 0, 0, sy, 0, 0), 0.0);
+                MCHK("scale-point", MT::get_scale(gil::point<T>(sx, sy)), M3::make(sx, 0, 0, sy, 0, 0), 0.0);
+                MCHK("scale-uniform", MT::get_scale(sx), M3::make(sx, 0, 0, sx, 0, 0), 0.0);
+                ld cs = std::cos((ld)th), sn = std::sin((ld)th);
+                MCHK("rotate", MT::get_rotate(th), M3::make(cs, sn, -sn, cs, 0, 0), 4 * eps);
+                // the documented chain: translate, scale, rotate, translate back -- via *, via *= and mixed
+                M3 chain = M3::make(1, 0, 0, 1, -tx, -ty) * M3::make(sx, 0, 0, sy, 0, 0) * M3::make(cs, sn, -sn, cs, 0, 0) * M3::make(1, 0, 0, 1, tx, ty);
+                const double ctol = 256 * eps * (1 + std::fabs((double)tx) + std::fabs((double)ty)) * (1 + (double)sx + (double)sy);
+                MCHK("chain-binary", MT::get_translate(-tx, -ty) * MT::get_scale(sx, sy) * MT::get_rotate(th) * MT::get_translate(tx, ty), chain, ctol);
+                { MT x = MT::get_translate(-tx, -ty); x *= MT::get_scale(sx, sy); x *= MT::get_rotate(th); x *= MT::get_translate(tx, ty); MCHK("chain-compound", x, chain, ctol); }
+            }
+            // points: transform(mat, p) and p * mat for floating and integer points
+            {
+                gil::point<T> p((T)(40 * r.unit() - 20), (T)(40 * r.unit() - 20));
+                gil::point<std::ptrdiff_t> q(r.range(-50, 50), r.range(-50, 50));
+                ld ex, ey;
+                const double ptol = 16 * eps * (1 + (double)a.mag()) * 60;
+                a.apply(p.x, p.y, ex, ey);
+                gil::point<T> t1 = gil::transform(A, p), t2 = p * A;
+                if (std::fabs((double)(t1.x - ex)) > ptol || std::fabs((double)(t1.y - ey)) > ptol) V("matrix-model.transform-fpoint." + tn, [&] { return vh::cat("transform(A,(", (double)p.x, ",", (double)p.y, ")) = (", (double)t1.x, ",", (double)t1.y, "), model (", (double)ex, ",", (double)ey, "); ", ctx()); });
+                if (t1.x != t2.x || t1.y != t2.y) V("matrix-model.point-times-matrix." + tn, [&] { return vh::cat("p*A = (", (double)t2.x, ",", (double)t2.y, ") != transform(A,p) = (", (double)t1.x, ",", (double)t1.y, "); ", ctx()); });
+                a.apply(q.x, q.y, ex, ey);
+                gil::point<T> t3 = gil::transform(A, q), t4 = q * A;
+                if (std::fabs((double)(t3.x - ex)) > ptol || std::fabs((double)(t3.y - ey)) > ptol) V("matrix-model.transform-ipoint." + tn, [&] { return vh::cat("transform(A,(", q.x, ",", q.y, ")) = (", (double)t3.x, ",", (double)t3.y, "), model (", (double)ex, ",", (double)ey, "); ", ctx()); });
+                if (t3.x != t4.x || t3.y != t4.y) V("matrix-model.ipoint-times-matrix." + tn, ctx);
+                // composition acts on points in the written order: p*(A*B) == (p*A)*B, also through *=
+                MT ab = A; ab *= B;
+                gil::point<T> u = p * ab, v2 = (p * A) * B;
+                ld mx, my; (a * bm).apply(p.x, p.y, mx, my);
+                const double p2 = ptol * (1 + (double)bm.mag()) * 4;
+                if (std::fabs((double)(u.x - mx)) > p2 || std::fabs((double)(u.y - my)) > p2 || std::fabs((double)(v2.x - mx)) > p2 || std::fabs((double)(v2.y - my)) > p2)
+                    V("matrix-model.compose-point." + tn, [&] { return vh::cat("p*(A*=B) = (", (double)u.x, ",", (double)u.y, "), (p*A)*B = (", (double)v2.x, ",", (double)v2.y, "), model (", (double)mx, ",", (double)my, "); ", ctx()); });
+            }
+            // inverse against the cofactor inverse of the 3x3 model; argument passed by value stays intact
+            {
+                ld det = a.m[0][0] * a.m[1][1] - a.m[0][1] * a.m[1][0];
+                if (std::fabs((double)det) > 1e-2) {
+                    MT keep = A; MT inv = gil::inverse(keep);
+                    MCHK("inverse-arg-untouched", keep, a, 0.0);
+                    M3 im; a.inverse(im);
+                    const double cond = (double)((1 + a.mag()) * (1 + a.mag()) / std::fabs((double)det));
+                    MCHK("inverse", inv, im, 256 * eps * cond * (1 + (double)a.mag()));
+                    MT x = A; x *= inv; MCHK("compound-inverse", x, M3::identity(), 1024 * eps * cond * (1 + (double)a.mag()));
+                    vh::obs("matrix-model.inverse-checked." + tn);
+                }
+            }
+#undef MCHK
+            vh::evals(1);
+        }
+        vh::distinct(1000);
+        if (b == 0) vh::sample(vh::cat("matrix3x2<", tn, "> against a long double 3x3 model: ctors, =, *, *= (chains, aliasing, return value), get_translate/scale/rotate overloads, transform, point*matrix, inverse; 1000 seeded triples per batch"));
+    }
+}
+
 int main(int argc, char** argv) {
     vh::init(argc, argv);
 #if C17_PART == 0
@@ -378,6 +510,8 @@ int main(int argc, char** argv) {
     resample_cases<gil::rgb8_pixel_t>();
     resample_cases<gil::gray32f_pixel_t>();
     algebra_cases();
+    algebra_model_cases<double>();
+    algebra_model_cases<float>();
 #endif
     return vh::finish();
 }
